@@ -404,10 +404,15 @@ def jacobi_sum_clenshaw_der(s, alpha, beta, x, j=1, alphas=None):
     jacobi_sum_clenshaw(s, alpha, beta, x, alphas=alphas[0])
     # now loop over increasing j
     for jj in range(1, j+1):
+        if M - jj < 0:
+            # derivatives beyond the degree of the sum vanish, the rows stay zero
+            break
+
         # more twisted notation - follow Forbes' paper, but our
         # idea of b and a are swapped
         a, *_ = recurrence_abc(M-jj, alpha, beta)
-        alphas[jj][M-jj] = j * a * alphas[jj-1][M-jj+1]
+        # the seed of row jj carries the factor jj (the row's own derivative order)
+        alphas[jj][M-jj] = jj * a * alphas[jj-1][M-jj+1]
         for n in range(M-jj-1, -1, -1):
             a, b, _ = recurrence_abc(n, alpha, beta)
             _, _, c = recurrence_abc(n+1, alpha, beta)
